@@ -33,6 +33,7 @@ def zerr : ZipErr → ZErr
   | .InvalidArchive => .invalidArchive
   | .UnsupportedArchive => .unsupportedArchive
   | .FileNotFound => .fileNotFound
+  | .PasswordRequired => .passwordRequired
 
 /-- `String::from_utf8_lossy(&raw).into_owned()` (as the UTF-8 bytes of the `String`): the model's decoder -/
 def fromUtf8Lossy (raw : Bytes) : Bytes := Model.Text.decodeToUtf8 true raw
